@@ -4,8 +4,11 @@ package main
 import (
 	"fmt"
 	"os"
+	"runtime"
 	"sort"
 	"strings"
+	"sync"
+	"sync/atomic"
 
 	"cuelang.org/go/cue"
 	"cuelang.org/go/cue/cuecontext"
@@ -14,11 +17,9 @@ import (
 	"cuelang.org/go/internal/verifharness/common"
 )
 
-var ctx *cue.Context
-
 // roundTrip encodes t as YAML and decodes it again; returns the YAML text and
 // the canonical projection of what came back (or ENCERR / DECERR / PANIC).
-func roundTrip(v cue.Value) (text string, back string) {
+func roundTrip(ctx *cue.Context, v cue.Value) (text string, back string) {
 	defer func() {
 		if r := recover(); r != nil {
 			back = fmt.Sprintf("PANIC")
@@ -37,6 +38,7 @@ func roundTrip(v cue.Value) (text string, back string) {
 }
 
 func explore(args map[string]string) {
+	ctx := cuecontext.New()
 	seed := uint64(common.Atoi(args["--seed"], 1))
 	n := common.Atoi(args["--n"], 1000)
 	r := common.NewRng(seed)
@@ -61,7 +63,7 @@ func explore(args map[string]string) {
 		}
 		v := ctx.BuildExpr(t.expr())
 		want := canon(v)
-		text, back := roundTrip(v)
+		text, back := roundTrip(ctx, v)
 		if back != want {
 			fails++
 			fmt.Printf("FAIL %s\n  text=%q\n  want=%s\n  back=%s\n", t.expr2(), text, want, back)
@@ -102,7 +104,6 @@ func main() {
 	if err := cueexperiment.Init(); err != nil {
 		panic(err)
 	}
-	ctx = cuecontext.New()
 	if len(os.Args) < 2 {
 		fmt.Fprintln(os.Stderr, "usage: harness-c11 <explore|run> --seed N ...")
 		os.Exit(2)
@@ -116,31 +117,148 @@ func main() {
 		explore(args)
 	case "run":
 		run(args)
+	case "explorejson":
+		r := common.NewRng(uint64(common.Atoi(args["--seed"], 1)))
+		n := common.Atoi(args["--n"], 1000)
+		dist := map[string]int{}
+		bad := 0
+		for i := 0; i < n; i++ {
+			var sb strings.Builder
+			tabBeforeColon = false
+			genJSON(r, 3, &sb, dist)
+			a, b := jsonBoth(cuecontext.New(), sb.String())
+			if a != "ERR" && a != "DECERR" && !strings.Contains(a, "ERR") && (a != b) != tabBeforeColon {
+				fmt.Printf("UNEXPECTED tab=%v\n", tabBeforeColon)
+			}
+			if a != b && !tabBeforeColon {
+				bad++
+				fmt.Printf("DIFF %q\n  json=%s\n  yaml=%s\n", sb.String(), a, b)
+			}
+		}
+		fmt.Println("n", n, "diff", bad)
 	default:
 		fmt.Fprintln(os.Stderr, "unknown mode")
 		os.Exit(2)
 	}
 }
 
+// job is one unit of work; it returns the case / impl line pairs to emit.
+type job func(ctx *cue.Context) [][2]string
+
+// runJobs runs the jobs on a pool of workers (one cue.Context each) and emits
+// the results in job order, so that the output only depends on the seed.
+func runJobs(out *common.Out, jobs []job) {
+	res := make([][][2]string, len(jobs))
+	var wg sync.WaitGroup
+	next := int64(-1)
+	nw := runtime.NumCPU()
+	if nw > 12 {
+		nw = 12
+	}
+	for w := 0; w < nw; w++ {
+		wg.Add(1)
+		go func() {
+			defer wg.Done()
+			ctx := cuecontext.New()
+			n := 0
+			for {
+				i := int(atomic.AddInt64(&next, 1))
+				if i >= len(jobs) {
+					return
+				}
+				res[i] = jobs[i](ctx)
+				n++
+				if n%2000 == 0 {
+					ctx = cuecontext.New() // keep the per-context caches small
+				}
+			}
+		}()
+	}
+	wg.Wait()
+	for _, r := range res {
+		for _, e := range r {
+			out.Emit(e[0], e[1])
+		}
+	}
+}
+
 func run(args map[string]string) {
 	seed := uint64(common.Atoi(args["--seed"], 1))
 	nprobe := common.Atoi(args["--nprobe"], 1000)
+	ndoc := common.Atoi(args["--ndoc"], 200)
+	njson := common.Atoi(args["--njson"], 200)
 	out := common.NewOut(args["--out"])
 	defer out.Close()
-	r := common.NewRng(seed)
 	dist := map[string]int{}
+	var jobs []job
+	probeJob := func(pc pctx, s string, m bool) job {
+		return func(ctx *cue.Context) [][2]string {
+			c, im, ok := probe(ctx, pc, s, m)
+			if !ok {
+				return nil
+			}
+			return [][2]string{{c, im}}
+		}
+	}
+	if f := args["--replay-cases"]; f != "" {
+		data, err := os.ReadFile(f)
+		if err != nil {
+			panic(err)
+		}
+		ctx := cuecontext.New()
+		for _, line := range strings.Split(strings.TrimSpace(string(data)), "\n") {
+			replayCase(ctx, out, line)
+		}
+		return
+	}
+	r := common.NewRng(seed)
+	// fixed corpus first: the witnesses of the known findings and of the theorems
+	for _, s := range corpusStrings {
+		for _, pc := range pctxs {
+			for _, m := range []bool{false, true} {
+				dist["probe/"+pc.name]++
+				dist["str/corpus"]++
+				jobs = append(jobs, probeJob(pc, s, m))
+				if !strings.Contains(pc.name, "E") {
+					break
+				}
+			}
+		}
+	}
+	for _, pc := range pctxs {
+		if !pc.isKey {
+			name := pc.name
+			jobs = append(jobs, func(ctx *cue.Context) [][2]string {
+				c, im := bytesProbe(ctx, name)
+				return [][2]string{{c, im}}
+			})
+		}
+	}
 	for i := 0; i < nprobe; i++ {
 		s, cls := genString(r)
 		pc := pctxs[r.Intn(len(pctxs))]
-		c, im, ok := probe(pc, s, r.Chance(1, 2))
-		if !ok {
-			dist["probe-build-mismatch"]++
-			continue
-		}
 		dist["probe/"+pc.name]++
 		dist["str/"+cls]++
-		out.Emit(c, im)
+		jobs = append(jobs, probeJob(pc, s, r.Chance(1, 2)))
 	}
+	for i := 0; i < ndoc; i++ {
+		t := genTree(r, 1+r.Intn(4), dist)
+		markMulti(r, t, false)
+		jobs = append(jobs, func(ctx *cue.Context) [][2]string {
+			c, im, extra := docCase(ctx, t)
+			return append([][2]string{{c, im}}, extra...)
+		})
+	}
+	for i := 0; i < njson; i++ {
+		var sb strings.Builder
+		genJSON(r, 1+r.Intn(4), &sb, dist)
+		text := sb.String()
+		jobs = append(jobs, func(ctx *cue.Context) [][2]string {
+			c, im := jsonCase(ctx, text)
+			return [][2]string{{c, im}}
+		})
+	}
+	runJobs(out, jobs)
 	var ks []string
 	for k := range dist {
 		ks = append(ks, k)
@@ -150,4 +268,65 @@ func run(args map[string]string) {
 		fmt.Printf("dist %s %d\n", k, dist[k])
 	}
 	fmt.Printf("oracle-disagree %d\n", oracleDisagree)
+}
+
+// markMulti chooses the source form of the strings that are list elements.
+func markMulti(r *common.Rng, t *T, inList bool) {
+	if t.K == 's' && inList {
+		t.Multi = r.Chance(1, 2)
+	}
+	for _, k := range t.Kids {
+		markMulti(r, k, t.K == 'L')
+	}
+}
+
+// jsonCase: J <hex text> tab=<0|1>  ->  json=<ok|err> same=<0|1> yaml=<ok|err>
+func jsonCase(ctx *cue.Context, text string) (string, string) {
+	tab := 0
+	if tabKeyColon(text) {
+		tab = 1
+	}
+	a, b := jsonBoth(ctx, text)
+	st := func(x string) string {
+		if strings.Contains(x, "ERR") || x == "PANIC" {
+			return "err"
+		}
+		return "ok"
+	}
+	same := 0
+	if a == b {
+		same = 1
+	}
+	return fmt.Sprintf("J %s tab=%d", common.Hex(text), tab), fmt.Sprintf("json=%s yaml=%s same=%d", st(a), st(b), same)
+}
+
+func replayCase(ctx *cue.Context, out *common.Out, line string) {
+	w := strings.Fields(line)
+	if len(w) == 0 {
+		return
+	}
+	switch w[0] {
+	case "P":
+		m := strings.HasSuffix(line, "m=1")
+		c, im, ok := probe(ctx, ctxByName(w[1]), common.Unhex(w[2]), m)
+		if ok {
+			out.Emit(c, im)
+		}
+	case "B":
+		c, im := bytesProbe(ctx, w[1])
+		out.Emit(c, im)
+	case "D":
+		t, err := parseT(w[1])
+		if err != nil {
+			panic(err)
+		}
+		c, im, extra := docCase(ctx, t)
+		out.Emit(c, im)
+		for _, e := range extra {
+			out.Emit(e[0], e[1])
+		}
+	case "J":
+		c, im := jsonCase(ctx, common.Unhex(w[1]))
+		out.Emit(c, im)
+	}
 }
